@@ -36,6 +36,8 @@ Spec == Init /\ [][Next]_vars
 FlowValid == /\ F \subseteq E
              /\ \A v \in V \ {s, t} : Cardinality({e \in F : e[1] = v}) = Cardinality({e \in F : e[2] = v})
              /\ FlowValue(F, s) = k
+\* the flow never uses both directions of an antiparallel pair (pushing along w->v cancels v->w instead)
+NoAntiparallel == \A e \in F : <<e[2], e[1]>> \notin F
 \* weak duality: no separating edge set is smaller than the number of paths pushed so far
 WeakDuality == k <= MinEdgeCutBySubsets(E, s, t)
 \* at Finish: the cut read off the residual graph separates, has exactly k edges, hence is minimum,
